@@ -262,22 +262,51 @@ func c10Classify(c *Ctx) {
 func c10TaskContext(c *Ctx, d *ssa.Function) {
 	n := 0
 	fnName := c.fname(d)
-	for _, f := range an.WithAnon(d) {
+	// Dial itself, and the helpers only Dial calls (the task may be invoked one level down)
+	hosts := an.WithAnon(d)
+	for _, f := range c.srcFuncs() {
+		if f.Parent() == nil && f != d && !anchorFuncs[c.fname(f)] {
+			if ok, _ := c.reachedOnlyFrom(f, func(root *ssa.Function) bool { return root == d }); ok && len(c.callersOf()[f]) > 0 {
+				hosts = append(hosts, an.WithAnon(f)...)
+			}
+		}
+	}
+	isTaskFn := func(t types.Type) bool {
+		sig, ok := t.Underlying().(*types.Signature)
+		return ok && sig.Params().Len() == 2 && strings.HasSuffix(typeStr(sig.Params().At(0).Type()), "context.Context") && strings.HasSuffix(typeStr(sig.Params().At(1).Type()), "system.DialContext")
+	}
+	// resolve a helper's parameter to the argument Dial passes (one call site)
+	var resolve func(v ssa.Value, depth int) ssa.Value
+	resolve = func(v ssa.Value, depth int) ssa.Value {
+		prm, ok := v.(*ssa.Parameter)
+		if !ok || prm.Parent() == d || depth > 3 {
+			return v
+		}
+		h := prm.Parent()
+		idx := -1
+		for i, q := range h.Params {
+			if q == prm {
+				idx = i
+			}
+		}
+		sites := an.CallSitesOf(h)
+		if idx < 0 || len(sites) != 1 || idx >= len(sites[0].Common().Args) {
+			return v
+		}
+		return resolve(sites[0].Common().Args[idx], depth+1)
+	}
+	for _, f := range hosts {
 		for _, b := range f.Blocks {
 			for _, in := range b.Instrs {
 				call, ok := in.(ssa.CallInstruction)
-				if !ok || call.Common().IsInvoke() {
+				if !ok || call.Common().IsInvoke() || len(call.Common().Args) != 2 {
 					continue
 				}
-				prm, ok := call.Common().Value.(*ssa.Parameter)
-				if !ok || prm.Parent() != d || len(call.Common().Args) != 2 {
-					continue
-				}
-				if _, isSig := prm.Type().Underlying().(*types.Signature); !isSig {
+				if _, isPrm := call.Common().Value.(*ssa.Parameter); !isPrm || !isTaskFn(call.Common().Value.Type()) {
 					continue
 				}
 				n++
-				arg := call.Common().Args[0]
+				arg := resolve(call.Common().Args[0], 0)
 				fact, ok2 := "", false
 				switch x := arg.(type) {
 				case *ssa.Parameter:
@@ -293,15 +322,19 @@ func c10TaskContext(c *Ctx, d *ssa.Function) {
 						fact = "context of unrecognised origin"
 						break
 					}
-					parent, _ := mk.Call.Args[0].(*ssa.Parameter)
-					// innermost loop header that dominates the task call
+					parent, _ := resolve(mk.Call.Args[0], 0).(*ssa.Parameter)
+					// innermost loop header that dominates the creation's use site in the same function
 					var hdr *ssa.BasicBlock
-					for _, h := range f.Blocks {
-						if !h.Dominates(b) {
+					site := b
+					if mk.Parent() != f {
+						site = nil // created in another frame: decide on the creating function's own loops
+					}
+					for _, h := range mk.Parent().Blocks {
+						if site != nil && !h.Dominates(site) {
 							continue
 						}
 						for _, pr := range h.Preds {
-							if h.Dominates(pr) {
+							if h.Dominates(pr) && (site != nil || h.Dominates(mk.Block())) {
 								if hdr == nil || hdr.Dominates(h) {
 									hdr = h
 								}
